@@ -8,15 +8,18 @@
 -/
 import Driver.WorldDom
 import Std.Data.HashSet
+import Std.Data.HashMap
 open SpecsModel SpecsModel.Driver
+
+def modelFuel : Nat := 1000000
 
 structure WState where
   caseId : String := ""
   lineNo : Nat := 0
-  model : EWorld := {}
+  model : World := {}
   diverged : Bool := false
-  mon : EntSpec := {}
-  monLog : Array Entity := #[]
+  pending : List (Nat × WOp × WRes) := []   -- model's nested results still to be matched
+  mon : WSpec := {}
   monDead : Bool := false
   -- statistics
   cases : Nat := 0
@@ -25,61 +28,138 @@ structure WState where
   mons : Nat := 0
   reuses : Nat := 0
   errKills : Nat := 0
-  staleQueries : Nat := 0
+  deadAccess : Nat := 0
+  nested : Nat := 0
+  eventsSeen : Nat := 0
+  destroyedSeen : Nat := 0
+  opKinds : Std.HashMap String Nat := {}
   caseHash : UInt64 := 0
   caseNontrivial : Bool := false
   distinct : Std.HashSet UInt64 := {}
   distinctNontrivial : Nat := 0
 
 /-- Close the current case: count it if its op script is new and it hit an interesting branch
-    (index reuse, failed deletion, query through a dead handle). -/
-def WState.closeCase (st : WState) : WState :=
-  if st.lineNo = 0 then st
-  else if st.distinct.contains st.caseHash then st
-  else { st with distinct := st.distinct.insert st.caseHash,
-                 distinctNontrivial := st.distinctNontrivial + (if st.caseNontrivial then 1 else 0) }
+    (index reuse, failed deletion, access through a dead handle, nested script, event, destruction). -/
+def WState.closeCase (st : WState) : WState × List String :=
+  if st.lineNo = 0 then (st, []) else
+  -- end-of-case checks
+  let (st, outs) :=
+    if st.monDead then (st, []) else
+    match st.mon.finishMaintain with
+    | .ok _ => (st, [])
+    | .error why =>
+      ({ st with mons := st.mons + 1 }, [s!"MON {why.take 3} case={st.caseId} line={st.lineNo} {why} op=[end-of-case] impl=[]"])
+  let (st, outs2) :=
+    if !st.diverged && !st.pending.isEmpty then
+      ({ st with diffs := st.diffs + 1 },
+       [s!"DIFF case={st.caseId} line={st.lineNo} op=[end-of-case] impl=[] model=[{st.pending.length} more nested results]"])
+    else (st, [])
+  let st :=
+    if st.distinct.contains st.caseHash then st
+    else { st with distinct := st.distinct.insert st.caseHash,
+                   distinctNontrivial := st.distinctNontrivial + (if st.caseNontrivial then 1 else 0) }
+  (st, outs ++ outs2)
+
+def splitLedger (r : String) : String × Option (List Int) :=
+  match r.splitOn " ! d" with
+  | [a] => (a, none)
+  | [a, d] => (a, (mapM? parseInt? (toks d)))
+  | _ => (r, none)
+
+def sortInts (l : List Int) : List Int := l.mergeSort (· ≤ ·)
+
+/-- Is this op/result pair "interesting" for coverage accounting? -/
+def noteCoverage (st : WState) (op : WOp) (res : WRes) : WState :=
+  let dead := fun (h : Nat) =>
+    match resolve st.mon.log h with
+    | some e => !st.mon.ent.live.contains e
+    | none => false
+  let st := match op with
+    | .get _ h | .getMut _ h _ _ | .has _ h | .ins _ h _ | .rem _ h | .entry _ h _ | .mutOrDefault _ h _ _
+    | .ent (.alive h) | .ent (.delNow h) | .ent (.delAtomic h) =>
+      if dead h then { st with deadAccess := st.deadAccess + 1, caseNontrivial := true } else st
+    | _ => st
+  match res with
+  | .e (.ent e) => if e.gen > 1 then { st with reuses := st.reuses + 1, caseNontrivial := true } else st
+  | .e (.ents es) =>
+    if es.any (fun e => e.gen > 1) then { st with reuses := st.reuses + 1, caseNontrivial := true } else st
+  | .e (.kill (.err _)) => { st with errKills := st.errKills + 1, caseNontrivial := true }
+  | .events l => if l.isEmpty then st else { st with eventsSeen := st.eventsSeen + l.length, caseNontrivial := true }
+  | _ => st
 
 def worldLine (st : WState) (line : String) : WState × List String :=
-  let (l, r) := splitArrow line
-  match toks l with
+  let (l0, r0) := splitArrow line
+  match toks l0 with
   | ["case", id] =>
-    let st := st.closeCase
-    ({ st with caseHash := 7, caseNontrivial := false, caseId := id, lineNo := 0, model := {}, diverged := false, mon := {},
-               monLog := #[], monDead := false, cases := st.cases + 1 }, [])
+    let (st, outs) := st.closeCase
+    ({ st with caseHash := 7, caseNontrivial := false, caseId := id, lineNo := 0, model := {},
+               diverged := false, pending := [], mon := {}, monDead := false, cases := st.cases + 1 }, outs)
   | lt =>
+    let (r, ledger) := splitLedger r0
     let st := { st with lineNo := st.lineNo + 1, lines := st.lines + 1,
-                        caseHash := mixHash st.caseHash (hash l) }
-    match parseEOp lt with
-    | none => (st, [s!"BAD case={st.caseId} line={st.lineNo} unparsable op: {l}"])
+                        caseHash := mixHash st.caseHash (hash l0) }
+    -- nested line?
+    let (nestedTag, lt) := match lt with
+      | "in" :: t :: rest => (t.toNat?, rest)
+      | _ => (none, lt)
+    let l := " ".intercalate lt
+    match parseWOp lt with
+    | none => (st, [s!"BAD case={st.caseId} line={st.lineNo} unparsable op: {l0}"])
     | some op =>
-      match parseERes op (toks r) with
-      | none => (st, [s!"BAD case={st.caseId} line={st.lineNo} unparsable result: {r}"])
+      match parseWRes op (toks r) with
+      | none => (st, [s!"BAD case={st.caseId} line={st.lineNo} unparsable result: {r} (op {l})"])
       | some ires =>
+        let kind := opKind l
+        let st := { st with opKinds := st.opKinds.insert kind (st.opKinds.getD kind 0 + 1) }
+        let st := noteCoverage st op ires
+        let st := match ledger with
+          | some d => if d.isEmpty then st else { st with destroyedSeen := st.destroyedSeen + d.length, caseNontrivial := true }
+          | none => st
         -- 1. model vs implementation
         let (st, out1) :=
           if st.diverged then (st, [])
           else
-            let (m', mres) := st.model.step op
-            if eresAgree op ires mres then ({ st with model := m' }, [])
-            else
-              ({ st with diverged := true, diffs := st.diffs + 1 },
-               [s!"DIFF case={st.caseId} line={st.lineNo} op=[{l}] impl=[{r}] model=[{showERes mres}]"])
+            match nestedTag with
+            | some tag =>
+              let st := { st with nested := st.nested + 1, caseNontrivial := true }
+              (match st.pending with
+               | (mtag, _, mres) :: rest =>
+                 if mtag == tag && wresAgree op ires mres then ({ st with pending := rest }, [])
+                 else ({ st with diverged := true, diffs := st.diffs + 1 },
+                       [s!"DIFF case={st.caseId} line={st.lineNo} op=[in {tag} {l}] impl=[{r}] model=[in {mtag} … {showWRes mres}]"])
+               | [] => ({ st with diverged := true, diffs := st.diffs + 1 },
+                        [s!"DIFF case={st.caseId} line={st.lineNo} op=[in {tag} {l}] impl=[{r}] model=[no nested op expected]"]))
+            | none =>
+              if !st.pending.isEmpty then
+                ({ st with diverged := true, diffs := st.diffs + 1 },
+                 [s!"DIFF case={st.caseId} line={st.lineNo} op=[{l}] impl=[{r}] model=[{st.pending.length} more nested results expected before this line]"])
+              else
+              let before := st.model.ledger.length
+              let (m', mres) := World.step modelFuel st.model op
+              let mdestroyed := sortInts (m'.ledger.take (m'.ledger.length - before))
+              let m'' := { m' with trace := [] }
+              if !wresAgree op ires mres then
+                ({ st with diverged := true, diffs := st.diffs + 1 },
+                 [s!"DIFF case={st.caseId} line={st.lineNo} op=[{l}] impl=[{r}] model=[{showWRes mres}]"])
+              else
+                match ledger with
+                | some d =>
+                  if sortInts d == mdestroyed then ({ st with model := m'', pending := m'.trace.reverse }, [])
+                  else ({ st with diverged := true, diffs := st.diffs + 1 },
+                        [s!"DIFF case={st.caseId} line={st.lineNo} op=[{l}] impl=[destroyed {sortInts d}] model=[destroyed {mdestroyed}]"])
+                | none => ({ st with model := m'', pending := m'.trace.reverse }, [])
         -- 2. property monitors on the implementation's transcript
         let (st, out2) :=
           if st.monDead then (st, [])
-          else if !resShapeOk op ires then
-            ({ st with monDead := true, mons := st.mons + 1 },
-             [s!"MON C00 case={st.caseId} line={st.lineNo} panic or malformed result op=[{l}] impl=[{r}]"])
           else
-            let (evs, log') := entEvents st.monLog op ires
-            let st := evs.foldl (fun st ev => match ev with
-              | .created e => if e.gen > 1 then { st with reuses := st.reuses + 1, caseNontrivial := true } else st
-              | .kill _ (.err _) => { st with errKills := st.errKills + 1, caseNontrivial := true }
-              | .killAtomic _ false => { st with errKills := st.errKills + 1, caseNontrivial := true }
-              | .isAlive _ false => { st with staleQueries := st.staleQueries + 1, caseNontrivial := true }
-              | _ => st) st
-            match st.mon.run evs with
-            | .ok s' => ({ st with mon := s', monLog := log' }, [])
+            let step1 := match nestedTag with
+              | some tag => st.mon.nestedLine tag op ires
+              | none => st.mon.topLine op ires
+            let step2 := match step1, ledger, nestedTag with
+              | .ok s, some d, none => (match s.destroyed d with | .ok s => s.checkLeak | .error w => .error w)
+              | x, _, _ => x
+            match step2 with
+            | .ok s' => ({ st with mon := s' }, [])
             | .error why =>
               ({ st with monDead := true, mons := st.mons + 1 },
                [s!"MON {why.take 3} case={st.caseId} line={st.lineNo} {why} op=[{l}] impl=[{r}]"])
@@ -101,6 +181,9 @@ def main : IO Unit := do
   match toks first with
   | ["domain", "world"] =>
     let st ← worldLoop stdin {}
-    let st := st.closeCase
-    IO.println s!"STATS cases={st.cases} lines={st.lines} diffs={st.diffs} mons={st.mons} reuses={st.reuses} err_kills={st.errKills} dead_queries={st.staleQueries} distinct={st.distinct.size} distinct_nontrivial={st.distinctNontrivial}"
+    let (st, outs) := st.closeCase
+    for o in outs do IO.println o
+    let kinds := st.opKinds.toList.mergeSort (fun a b => a.1 ≤ b.1)
+    let kindStr := " ".intercalate (kinds.map (fun p => s!"op_{p.1}={p.2}"))
+    IO.println s!"STATS cases={st.cases} lines={st.lines} diffs={st.diffs} mons={st.mons} reuses={st.reuses} err_kills={st.errKills} dead_access={st.deadAccess} nested={st.nested} events={st.eventsSeen} destroyed={st.destroyedSeen} distinct={st.distinct.size} distinct_nontrivial={st.distinctNontrivial} {kindStr}"
   | _ => IO.println s!"BAD unknown domain line: {first}"
